@@ -63,6 +63,13 @@ def main():
     res["demo_with_change"] = {"rc": rc1, "tail": out1[-800:]}
     res["ran"].append("git apply patch.diff; bash demo/run.sh %s -> rc %d" % (wt, rc1))
     res["demo_s"] = round(time.time() - t)
+    if rc0 == 124:
+        # cold build under load timed out: repeat the unchanged run now that the build is warm
+        sh(["git", "apply", "-R", patch], cwd=wt)
+        rc0, out0 = sh(["bash", runsh, wt], cwd=demo, env=env, timeout=3400)
+        res["demo_without_change"] = {"rc": rc0, "tail": out0[-800:], "note": "first attempt timed out during the cold build; repeated"}
+        res["ran"].append("bash demo/run.sh %s (unchanged, repeated) -> rc %d" % (wt, rc0))
+        sh(["git", "apply", patch], cwd=wt)
     # existing tests of the modified crates
     crates = sorted({m.group(1) for f in meta.get("files_changed", []) for m in [re.search(r"crates/([^/]+)/", f)] if m})
     if not crates:
